@@ -25,6 +25,7 @@ import random
 import shutil
 import subprocess
 import sys
+import time
 from concurrent.futures import ThreadPoolExecutor
 from pathlib import Path
 
@@ -33,6 +34,24 @@ from vkit import tlc, tracecheck
 VERIF = Path(__file__).resolve().parents[1]
 ROW = 385 * 2          # default row size; rowbytes(sc) for runs with nc_out / dtype options
 T = 1024
+DUR = {"max": 0.0, "timeouts": 0}    # longest completed real run of this check (seconds), scenarios that did not come to an end
+LIM = 10 ** 9          # integers handed to TLC stay below this (32-bit arithmetic: positions are added to row counts)
+
+
+def ival(e, key, bad, idx=None):
+    """integer field `key` (element idx of a list field) of a hook event. What is no integer (absent, None, a string, a fraction,
+    NaN) is 0 and its name goes to `bad`; an integer beyond +-LIM is clamped and named in `bad` as well."""
+    v = e.get(key) if isinstance(e, dict) else None
+    if idx is not None:
+        v = v[idx] if isinstance(v, (list, tuple)) and len(v) > idx else None
+    if isinstance(v, bool) or not isinstance(v, (int, float)) or v != v or v in (float("inf"), float("-inf")) or int(v) != v:
+        bad.append(key)
+        return 0
+    v = int(v)
+    if abs(v) > LIM:
+        bad.append(key)
+        return LIM if v > 0 else -LIM
+    return v
 
 
 def run_real(ctx, sc, idx):
@@ -44,14 +63,44 @@ def run_real(ctx, sc, idx):
                 "OMP_NUM_THREADS": "1", "OPENBLAS_NUM_THREADS": "1", "MKL_NUM_THREADS": "1",
                 "PYTHONPATH": f"{os.environ.get('VERIF_REPO', '/repo')}/src:{VERIF}/harness:{VERIF}/vendor",
                 "JOBLIB_TEMP_FOLDER": str(d)})
+    # all calls of one scenario take seconds (a busy machine: a minute or two). Once a scenario did not come to an end, the others
+    # are given six times the longest completed one (at least two minutes): a call that hangs hangs in every scenario
+    limit = 600 if ctx.quick else 1500
+    if DUR["timeouts"] and DUR["max"] > 0:
+        limit = min(limit, max(120, int(6 * DUR["max"])))
+    t0 = time.time()
     try:
         p = subprocess.run([sys.executable, str(VERIF / "harness" / "c06_run.py"), json.dumps(sc)], env=env,
-                           capture_output=True, text=True, timeout=1500)
+                           capture_output=True, text=True, timeout=limit)
+        DUR["max"] = max(DUR["max"], time.time() - t0)
     except subprocess.TimeoutExpired:
+        DUR["timeouts"] += 1
+        # the call(s) of this scenario did not come to an end (they take seconds): the events the workers recorded until then are
+        # judged, the call counts as one that did not return normally (NoCrash)
+        evs = []
+        for f in sorted((d / "tr").glob("*.ndjson")):
+            for line in f.read_text(errors="replace").splitlines():
+                try:
+                    e = json.loads(line)
+                except ValueError:
+                    e = None
+                evs.append(e if isinstance(e, dict) else {"ev": "Unreadable", "raw": line[:80]})
         shutil.rmtree(d, ignore_errors=True)
-        raise tlc.TLCError(f"real run timed out: {sc}")
+        first = sc.get("prev") or sc
+        return {"exc": "", "timeout": True,
+                "runs": [{"exc": f"Timeout: the call did not return within {limit} s", "ns": first["ns"], "nbatch": first["nbatch"],
+                          "nproc": first["nproc"], "ns2add": first.get("ns2add", 0), "events": evs, "size_rows": -1, "size_exact": True}]}
     shutil.rmtree(d, ignore_errors=True)
     line = [x for x in p.stdout.splitlines() if x.startswith("RESULT ")]
+    marks = [x.split()[0] for x in p.stdout.splitlines() if x.startswith(("CALLING ", "RETURNED "))]
+    if not line and marks.count("CALLING") > marks.count("RETURNED"):
+        # the interpreter ended inside a call of decompress_destripe_cbin (os._exit, a fatal signal): the call did not return
+        # normally (NoCrash); before the first call / after the last one it is a failure of c06_run itself
+        first = sc.get("prev") or sc
+        return {"exc": "", "died": True,
+                "runs": [{"exc": f"Died: the interpreter ended inside the call (exit status {p.returncode})", "ns": first["ns"],
+                          "nbatch": first["nbatch"], "nproc": first["nproc"], "ns2add": first.get("ns2add", 0), "events": [],
+                          "size_rows": -1, "size_exact": True}]}
     if not line:
         raise tlc.TLCError(f"real run produced no result: {sc}\n{p.stdout[-1500:]}\n{p.stderr[-1500:]}")
     res = json.loads(line[-1][7:])
@@ -68,8 +117,12 @@ def lastb_of(ns, nb):
     return 0 if ns <= nb else -(-(ns - nb) // (nb - 2 * T))
 
 
-def to_trace(sc, res, k):
-    """hook events of run k of a scenario -> record for DestripeFileTrace (row units)"""
+def to_trace(sc, res, k, notes=None):
+    """hook events of run k of a scenario -> record for DestripeFileTrace (row units). The record is always one the trace
+    specification consumes to its end (per worker: Start, writes, and a last write that is `done` or a Crash), so that the property
+    layer is evaluated whatever the hooks recorded: a write whose fields are no integers is a write that cannot be placed
+    (`ragged`: FinalFileCanonical), events out of order / repeated / unreadable are listed in `notes` (reported as drift)."""
+    notes = [] if notes is None else notes
     runs = res["runs"]
     r = runs[k]
     ROW = rowbytes(sc)
@@ -83,42 +136,86 @@ def to_trace(sc, res, k):
     workers = [[] for _ in range(npx)]
     by_w = {}
     for e in r["events"]:
-        by_w.setdefault(e["worker"], []).append(e)
+        bad = []
+        w, seq = ival(e, "worker", bad), ival(e, "seq", bad)
+        if bad or not isinstance(e.get("ev"), str) or not 0 <= w < npx:
+            notes.append(f"run {k}: event without a worker (0..{npx - 1}) / sequence number / name: {str(e)[:100]}")
+            continue
+        by_w.setdefault(w, []).append((seq, len(by_w.get(w, [])), e))
     for w in range(npx):
-        evs = sorted(by_w.get(w, []), key=lambda e: e["seq"])
+        evs = []
+        for e in [x[2] for x in sorted(by_w.get(w, []), key=lambda x: x[:2])]:
+            if evs and e["ev"] == "WriteBatch" and {x: e[x] for x in e if x != "seq"} == {x: evs[-1][x] for x in evs[-1] if x != "seq"} \
+                    and ival(e, "pos_after", []) != ival(e, "pos_before", []):
+                # the very same write (same file positions before and after) recorded twice: one write
+                notes.append(f"run {k} worker {w}: WriteBatch recorded twice")
+                continue
+            evs.append(e)
         out = workers[w]
         i = 0
-        ended = False
+        started = ended = False
         while i < len(evs):
             e = evs[i]
+            bad = []
             if e["ev"] == "WorkerStart":
                 seek = evs[i + 1] if i + 1 < len(evs) and evs[i + 1]["ev"] == "Seek" else None
-                nothing = seek is None and not r["exc"]
-                pos = seek["pos"] // ROW if seek else off + (0 if w == 0 else e["first_s"] + T)
-                out.append({"ev": "Start", "b": e["n_batch"], "maxs": e["max_s"], "pos": pos, "nothing": bool(nothing)})
+                if started:
+                    notes.append(f"run {k} worker {w}: WorkerStart recorded again")
+                    i += 2 if seek else 1
+                    continue
+                writes = any(x["ev"] == "WriteBatch" for x in evs[i + 1:])
+                if seek is None and writes:
+                    notes.append(f"run {k} worker {w}: writes but no Seek recorded")
+                nothing = seek is None and not r["exc"] and not writes
+                pos = ival(seek, "pos", bad) // ROW if seek else min(off + (0 if w == 0 else ival(e, "first_s", bad) + T), LIM)
+                out.append({"ev": "Start", "b": ival(e, "n_batch", bad), "maxs": ival(e, "max_s", bad), "pos": pos, "nothing": bool(nothing)})
+                if bad:
+                    notes.append(f"run {k} worker {w}: WorkerStart / Seek fields {bad} are no (32-bit) integers")
+                started = True
                 ended = nothing
                 i += 2 if seek else 1
                 continue
             if e["ev"] == "WriteBatch":
+                if ended:
+                    notes.append(f"run {k} worker {w}: WriteBatch recorded after the worker was done")
+                    i += 1
+                    continue
+                pb, pa, rows = ival(e, "pos_before", bad), ival(e, "pos_after", bad), ival(e, "rows", bad)
                 # ragged: the bytes written are not `rows` whole rows starting at a row boundary of the output
-                ev = {"ev": "Write", "s0": e["first_s"], "s1": e["last_s"], "p0": e["pos_before"] // ROW,
-                      "rows": e["rows"], "i0": e["ind2save"][0],
-                      "rmsrow": e["rms_pos"] // (384 * 4) - 1 - rms_off_rows, "padrows": 0, "padpos": 0, "done": False,
-                      "ragged": bool(e["pos_before"] % ROW or e["pos_after"] - e["pos_before"] != e["rows"] * ROW)}
+                ev = {"ev": "Write", "s0": ival(e, "first_s", bad), "s1": ival(e, "last_s", bad), "p0": pb // ROW,
+                      "rows": rows, "i0": ival(e, "ind2save", bad, 0),
+                      "rmsrow": ival(e, "rms_pos", bad) // (384 * 4) - 1 - rms_off_rows, "padrows": 0, "padpos": 0, "done": False,
+                      "ragged": bool(pb % ROW or pa - pb != rows * ROW)}
                 j = i + 1
                 if j < len(evs) and evs[j]["ev"] == "Pad":
-                    ev["padrows"] = evs[j]["rows"]
-                    ev["padpos"] = evs[j]["pos_before"] // ROW
-                    if evs[j]["pos_before"] % ROW or evs[j]["pos_after"] - evs[j]["pos_before"] != evs[j]["rows"] * ROW:
+                    qb, qa, qrows = ival(evs[j], "pos_before", bad), ival(evs[j], "pos_after", bad), ival(evs[j], "rows", bad)
+                    ev["padrows"] = qrows
+                    ev["padpos"] = qb // ROW
+                    if qb % ROW or qa - qb != qrows * ROW:
                         ev["ragged"] = True
                     j += 1
+                if bad:         # a write that cannot be placed
+                    ev["ragged"] = True
+                    ev["rows"], ev["padrows"] = max(ev["rows"], 0), max(ev["padrows"], 0)
+                    notes.append(f"run {k} worker {w}: WriteBatch / Pad fields {bad} are no (32-bit) integers")
                 if j < len(evs) and evs[j]["ev"] == "WorkerDone":
                     ev["done"] = True
                     ended = True
                     j += 1
+                if not started:
+                    notes.append(f"run {k} worker {w}: WriteBatch recorded before any WorkerStart")
+                    out.append({"ev": "Start", "b": ev["s0"] // max(nb - 2 * T, 1), "maxs": min(ns, LIM), "pos": ev["p0"], "nothing": False})
+                    started = True
                 out.append(ev)
                 i = j
                 continue
+            if e["ev"] == "WorkerDone" and not ended and out and out[-1]["ev"] == "Write":
+                # the end of the worker, not recorded right after its last write (another event in between)
+                notes.append(f"run {k} worker {w}: WorkerDone recorded apart from the last write")
+                out[-1]["done"] = True
+                ended = True
+            elif e["ev"] in ("Pad", "WorkerDone", "Seek"):
+                notes.append(f"run {k} worker {w}: {e['ev']} recorded out of place")
             i += 1
         if not ended:
             out.append({"ev": "Crash"})
@@ -130,7 +227,8 @@ def to_trace(sc, res, k):
     fin = ok and (last or not sc.get("prev"))
     lsb = -1
     if "max_lsb_diff" in res and last:          # the comparison is made on the block of the scenario's own (last) call
-        lsb = int(-(-(res["max_lsb_diff"] - 1e-6) // 1))
+        d = res["max_lsb_diff"]
+        lsb = LIM if not isinstance(d, (int, float)) or d != d or d > LIM else int(-(-(d - 1e-6) // 1))
     # few workers: all interleavings; many: worker orders in which every worker finishes last once (+ recorded order)
     nev = sum(len(w) for w in workers)
     if npx <= 4 and nev <= 14:
@@ -141,9 +239,9 @@ def to_trace(sc, res, k):
     # size of the real file after this call (a size that is no whole number of rows is no admissible length: 0)
     realsize = -1
     if not r["exc"] and r.get("size_rows", -1) >= 0:
-        realsize = r["size_rows"] if r.get("size_exact", True) else 0
+        realsize = min(r["size_rows"], LIM) if r.get("size_exact", True) else 0
     if ok and last:
-        realsize = res["rows"] if res.get("size_exact", True) else 0
+        realsize = min(res["rows"], LIM) if res.get("size_exact", True) else 0
     # one entry per batch in both quality files of the pair (rms, timestamps): report the one that deviates
     realrms = -1
     if ok and last:
@@ -343,9 +441,15 @@ def model(ctx):
 def judge(ctx, scs, results):
     traces, owner = [], []
     for i, (sc, res) in enumerate(zip(scs, results)):
+        notes = []
         for k in range(len(res["runs"])):
-            traces.append(to_trace(sc, res, k))
+            traces.append(to_trace(sc, res, k, notes))
             owner.append((i, k))
+        if notes:
+            # the hooks recorded something that is no run of my_function as spec/sys/DestripeFile.tla describes it; the record was
+            # completed so that every clause is still evaluated on it and on the real files
+            ctx.spec_drift(f"decompress_destripe_cbin(ns={sc['ns']} nbatch={sc['nbatch']} nproc={sc['nproc']}): recorded events are not "
+                           f"those of the hooks' protocol ({len(notes)}): " + "; ".join(notes[:3]))
     verdicts = tracecheck.validate(ctx, "trace/DestripeFileTrace.tla", "trace/DestripeFileTrace.cfg", traces,
                                    label="destripe", jvms=4, workers=2, timeout=1200)
     for v in verdicts:
@@ -355,7 +459,7 @@ def judge(ctx, scs, results):
         desc = (f"ns={sc['ns']} nbatch={sc['nbatch']} nproc={sc['nproc']} ns2add={sc['ns2add']} append={sc['append']} "
                 f"leftovers={sc.get('stale') or False} run={k}" + (f" {opts}" if opts else ""))
         if v["prop"]:
-            exc = results[i]["runs"][k]["exc"]
+            exc = results[i]["runs"][k]["exc"] or (results[i].get("oracle_exc") if v["prop"].startswith("EqualsBatchwise") else "")
             ctx.violation("destripe:" + v["prop"].split("(")[0],
                           f"decompress_destripe_cbin({desc}): {v['prop']} false on a schedule of the recorded writes"
                           + (f" [{exc}]" if exc else ""), {"scenario": sc})
@@ -397,8 +501,8 @@ def run(ctx):
         "runs_compared": sum(1 for r in results if "max_lsb_diff" in r)}
     for sc, res in list(zip(scs, results))[:3]:
         ctx.sample({"scenario": {k: v for k, v in sc.items() if k != "dir"},
-                    "writes": [[e["worker"], e["first_s"], e["last_s"], e["pos_before"] // rowbytes(sc), e["rows"]]
-                               for e in res["runs"][0]["events"] if e["ev"] == "WriteBatch"],
+                    "writes": [[ival(e, "worker", []), ival(e, "first_s", []), ival(e, "last_s", []), ival(e, "pos_before", []) // rowbytes(sc),
+                                ival(e, "rows", [])] for e in res["runs"][0]["events"] if e.get("ev") == "WriteBatch"],
                     "rows": res.get("rows"), "rms_rows": res.get("rms_rows")})
     selftest(ctx, traces)
     ctx.cov["rule"] = ("model: every interleaving for every (ns, NBATCH, nproc, pad, offset) of the box; real runs: one per "
